@@ -64,6 +64,12 @@ pub const BODIES: &[&str] = &[
     "local function id<T>(value: T): T\n\treturn value\nend\nlocal n = (id(5) :: any) :: number\nmark({M}, n)\nreturn n\n",
     // 29: if with else-if chains computing constants
     "local r\nif 1 + 1 == 2 then\n\tr = 'a'\nelseif 2 > 3 then\n\tr = 'b'\nelse\n\tr = 'c'\nend\nmark({M}, r)\nreturn r\n",
+    // 30: assert in expression position while `select` is shadowed (reserved globals path)
+    "local select = mark\nlocal function check(...)\n\tlocal first = assert(compute(...))\n\treturn select(first), assert(other(first))\nend\nmark({M})\nreturn check\n",
+    // 31: debug.profilebegin in expression position, string library shadowed
+    "local string = { rep = mark }\nlocal t = { debug.profilebegin('x'), debug.profileend() }\nlocal s = `value {t}`\nmark({M}, s)\nreturn t\n",
+    // 32: nested tables and long lines for column spans
+    "local config = { alpha = { beta = { gamma = { delta = 'a very long string literal that will not fit on a short line' } } }, list = { 1, 2, 3, 4, 5, 6, 7, 8, 9, 10, 11, 12 } }\nmark({M}, config)\nreturn config\n",
 ];
 
 /// Bodies that do not parse (content faults).
